@@ -674,7 +674,10 @@ class Probe:
             if mode == "eval" and isinstance(source, str) and source.startswith("_temp_("):
                 b = tree.body
                 if isinstance(b, ast.Call):
-                    probe.calls[source[7:-1]] = ((len(b.args), [kw.arg if kw.arg is not None else "**" for kw in b.keywords]), True)
+                    kws = [kw.arg if kw.arg is not None else "**" for kw in b.keywords]
+                    if any(isinstance(a_, ast.Starred) for a_ in b.args):
+                        kws.append("*")           # oracle convention of Compiler/ParseBase.v py_call_shape
+                    probe.calls[source[7:-1]] = ((len(b.args), kws), True)
                 else:
                     probe.calls[source[7:-1]] = ((0, []), False)
             else:
